@@ -5,9 +5,9 @@ rational it denotes: sign, coefficient, exponent (value = ±coeff·10^exp), or N
 Parsing a string into a Decimal is Python's (the harness hands the model `Decimal(str(x)).as_tuple()`);
 what is modelled is every decision taken on the parsed value.  The Decimal arithmetic of the source
 is modelled as EXACT: the source pins a sufficient precision in a local context for each product /
-quantize / normalize, so the caller's decimal PRECISION does not enter (harness oracles `amount.context`,
-`feerate.context`); the caller's signal TRAPS (Inexact / Rounded) are not modelled: oracle `amount.traps` checks on the
-real code that they do not leak either.
+quantize / normalize, so NO field of the caller's decimal context enters (the source works in a context of its own: precision, exponent
+range, traps); harness oracles `amount.context`, `amount.traps`, `amount.anycontext`, `feerate.context` check exactly that
+on the real code, varying every field of decimal.Context.
 -/
 namespace Btc.C18
 open Btc Btc.Py
